@@ -38,3 +38,143 @@ def oracle(H):
 
 SWEEP = (8, 120)
 install(globals(), ID, 3000, 40000)
+_sim_run = run
+_sim_replay = replay
+
+# ----------------------------------------------------------------------------- REAL confirming part (fault points, LOKY_VERIF=1)
+KILL_POINTS = ["worker.init_done", "worker.before_get", "worker.got_item", "worker.before_send", "worker.sent",
+               "worker.before_announce", "worker.announced"]
+
+
+def real_oracle(prog, out):
+    v = []
+    main = [o for o in out if "outcomes" in o]
+    end = [o for o in out if o.get("done")]
+    if not main:
+        return [("driver_incomplete", f"{out[-2:]}")]
+    m = main[0]
+    plan = prog["plan"][0]
+    key = plan["point"] + ".worker"
+    fired = len(m["hits"].get(key, [])) >= plan["nth"]
+    unannounced = fired and plan["point"] != "worker.announced"
+    for i, o in enumerate(m["outcomes"]):
+        if o == ["TIMEOUT"]:
+            if m["stuck"]:
+                v.append(("future_pending_after_worker_death", f"task {i} unresolved 40 s after a worker was killed at {plan}; the whole "
+                          f"process tree is idle (no CPU time consumed in 2 s)"))
+            continue
+        if o[0] == "submit_raised":
+            if "BrokenProcessPool" not in o[2]:
+                v.append(("submit_wrong_error", f"task {i}: submit raised {o[:2]}"))
+            continue
+        if o[0] == "val":
+            if o[1] != ["ok", i]:
+                v.append(("fabricated_or_wrong_value", f"task {i}: {o}"))
+        elif "BrokenProcessPool" not in o[2]:
+            v.append(("wrong_error_after_worker_death", f"task {i}: {o[:2]}"))
+        elif o[1] == "TerminatedWorkerError" and plan["action"].startswith("kill:") and f"SIG" not in o[3] and "EXIT" not in o[3]:
+            v.append(("exit_code_not_named", f"task {i}: {o[3][-200:]}"))
+    if unannounced:
+        pr = m["probe"]
+        if pr and pr[0] == "val":
+            v.append(("submit_accepted_after_death", f"a submit() after the unannounced death at {plan} was accepted and ran: {pr}"))
+        elif pr and pr[0] in ("exc", "submit_raised") and "BrokenProcessPool" not in pr[2]:
+            v.append(("submit_wrong_error", f"{pr[:2]}"))
+        if not any(o[0] == "exc" for o in m["outcomes"]) and m["broken"] is None and pr and pr[0] == "TIMEOUT" and m["stuck"]:
+            v.append(("death_not_detected", f"{plan}: pool not broken, probe pending, tree idle"))
+    if end and unannounced:
+        e = end[0]
+        if not e["shutdown_returned"]:
+            v.append(("shutdown_hangs_after_break", "shutdown(wait=True) did not return within 40 s"))
+        elif e["workers_alive_after"]:
+            v.append(("workers_not_killed", f"{e['workers_alive_after']} alive after the pool broke and was shut down"))
+    return v
+
+
+def real_shard(seed, n, tier="quick"):
+    import json
+    import hypothesis
+    from hypothesis import given, settings, HealthCheck, Phase, strategies as st
+    from real import runner
+    from vlib.common import Acc, HarnessError
+
+    acc = Acc()
+    fails = []
+    base = runner.workdir("c02real")
+    phases = [Phase.generate] if tier == "quick" else [Phase.generate, Phase.shrink]
+    task = st.one_of(st.tuples(st.just("echo")), st.tuples(st.just("nap"), st.sampled_from([0.02, 0.2])),
+                     st.tuples(st.just("big"), st.sampled_from([1000, 200000])))
+
+    @hypothesis.seed(seed)
+    @settings(max_examples=n, database=None, deadline=None, suppress_health_check=list(HealthCheck), report_multiple_bugs=False,
+              phases=phases)
+    @given(st.integers(1, 3), st.sampled_from([None, None, 0.3, 20]), st.lists(task, min_size=1, max_size=8),
+           st.sampled_from(KILL_POINTS), st.integers(1, 6), st.sampled_from(["kill:9", "kill:11", "kill:15", "exit:3", "exit:0"]),
+           st.sampled_from([0, 0, 0.02]))
+    def t(workers, timeout, tasks, point, nth, action, gap):
+        if point in ("worker.before_announce", "worker.announced") and timeout is None:
+            timeout = 0.3
+        prog = {"workers": workers, "timeout": timeout, "tasks": [list(x) for x in tasks], "gap": gap,
+                "idle": 1.2 if timeout == 0.3 else 0, "plan": [{"point": point, "role": "worker", "nth": nth, "action": action}]}
+        d_env = {"LOKY_VERIF_PLAN": json.dumps(prog["plan"])}
+        res, p = runner.run_driver("drv_fault.py", prog, base, timeout=240, env_extra=dict(d_env, LOKY_VERIF_DIR="."), hooks=True)
+        res = runner.finish(res, p)
+        case = {"engine": "real", "prog": prog}
+        v = real_oracle(prog, res["out"])
+        if v and v[0][0] == "driver_incomplete":
+            if res["timed_out"]:
+                v = [("driver_hangs", f"the driver did not finish within 240 s with plan {prog['plan']}; err={res['err'][-300:]}")]
+            else:
+                raise HarnessError(f"C02 real driver incomplete rc={res['rc']}: {res['err'][-800:]} prog={prog}")
+        main = [o for o in res["out"] if "outcomes" in o]
+        fired = bool(main) and len(main[0]["hits"].get(point + ".worker", [])) >= nth
+        if not fails:
+            acc.case(case, fired)
+            acc.count("real_fault_cases")
+            acc.count("real_fault_fired" if fired else "real_fault_not_reached")
+            acc.count("real_point:" + point)
+        if v:
+            fails.append({"kind": v[0][0], "detail": v[0][1], "case": case, "where": "real:" + point})
+            raise AssertionError(v[0][0])
+
+    try:
+        t()
+    except BaseException:
+        if not fails:
+            raise
+    finally:
+        import shutil
+        shutil.rmtree(base, ignore_errors=True)
+    if fails:
+        acc.violations.append(fails[-1])
+    return acc
+
+
+def run(tier, seed):
+    from vlib import common
+    from vlib.shards import run_jobs
+    acc = _sim_run(tier, seed)
+    nr = 64 if tier == "quick" else 960
+    a2, not_run = run_jobs([{"module": "props.c02", "func": "real_shard",
+                             "kwargs": {"seed": common.derive_seed(seed, ID, "real", i), "n": nr // 16, "tier": tier}} for i in range(16)],
+                           tag="c02real", timeout_s=1500 if tier == "quick" else 7200)
+    acc.merge(a2, sample_cap=10)
+    return acc
+
+
+def replay(case, verbose=False):
+    if case.get("engine") == "real":
+        import json
+        import shutil
+        from real import runner
+        base = runner.workdir("c02replay")
+        prog = case["prog"]
+        res, p = runner.run_driver("drv_fault.py", prog, base, timeout=240,
+                                   env_extra={"LOKY_VERIF_PLAN": json.dumps(prog["plan"]), "LOKY_VERIF_DIR": "."}, hooks=True)
+        res = runner.finish(res, p)
+        if verbose:
+            print(res["out"], res["err"][-500:])
+        v = real_oracle(prog, res["out"])
+        shutil.rmtree(base, ignore_errors=True)
+        return [{"kind": k, "detail": d, "case": case, "predicates": []} for k, d in v]
+    return _sim_replay(case, verbose)
